@@ -10,7 +10,8 @@ use crate::streams::BaseStream;
 pub enum BodyReader {
     Chunked(ChunkedReader<BaseStream>),
     Length(Take<BufReader<BaseStream>>),
-    Close(BufReader<BaseStream>),
+    // The limit is only there to be set to zero once the end of the body has been seen.
+    Close(Take<BufReader<BaseStream>>),
 }
 
 impl Read for BodyReader {
@@ -26,7 +27,15 @@ impl Read for BodyReader {
                 }
                 Ok(n)
             }
-            BodyReader::Close(r) => r.read(buf),
+            BodyReader::Close(r) => {
+                let n = r.read(buf)?;
+                if n == 0 && !buf.is_empty() {
+                    // the body has ended: later reads must not go back to the connection, which the
+                    // timeout thread may shut down in the meantime
+                    r.set_limit(0);
+                }
+                Ok(n)
+            }
         }
     }
 }
@@ -45,7 +54,12 @@ impl BufRead for BodyReader {
                 }
                 Ok(buf)
             }
-            BodyReader::Close(r) => r.fill_buf(),
+            BodyReader::Close(r) => {
+                if r.fill_buf()?.is_empty() {
+                    r.set_limit(0);
+                }
+                r.fill_buf()
+            }
         }
     }
 
@@ -107,7 +121,7 @@ impl BodyReader {
             Ok(BodyReader::Length(reader.take(val)))
         } else {
             debug!("creating close reader");
-            Ok(BodyReader::Close(reader))
+            Ok(BodyReader::Close(reader.take(u64::MAX)))
         }
     }
 }
